@@ -61,14 +61,18 @@ def tagGet? (t : Tags) (k : String) : Option String := (t.find? (fun p => p.1 ==
 def tagGet (t : Tags) (k : String) : String := (tagGet? t k).getD ""
 def hasTag (t : Tags) (k : String) : Bool := (tagGet? t k).isSome
 
-/-- utils.go:20-32: a piece that ends in `\` swallows the separator and the next piece.  (A trailing `\` at the very end
-    of the tag makes the Go code index out of range: not generated, left as is here.) -/
-def mergeEsc : List (List Char) → List (List Char)
-  | [] => []
-  | [p] => [p]
-  | p :: q :: rest =>
-    if p.getLast? == some '\\' then mergeEsc ((p.dropLast ++ ';' :: q) :: rest) else p :: mergeEsc (q :: rest)
-termination_by l => l.length
+/-- utils.go:20-32: a piece that ends in `\` swallows the separator and the next piece (`cur` = the piece being merged).
+    (A trailing `\` at the very end of the tag makes the Go code index out of range: not generated, left as is here.) -/
+def mergeEscAux : Option (List Char) → List (List Char) → List (List Char)
+  | none, [] => []
+  | some p, [] => [p]
+  | cur, q :: rest =>
+    let p := match cur with
+      | none => q
+      | some p => p.dropLast ++ ';' :: q
+    if p.getLast? == some '\\' then mergeEscAux (some p) rest else p :: mergeEscAux none rest
+
+def mergeEsc (l : List (List Char)) : List (List Char) := mergeEscAux none l
 
 /-- utils.go:16-45 with `sep = ";"` -/
 def parseTagSetting (s : String) : Tags :=
@@ -150,7 +154,8 @@ structure AField where
 
 def AField.perm (f : AField) : Bool := f.creatable || f.updatable || f.readable
 
-def strBytes (s : String) : List Nat := s.toUTF8.toList.map (·.toNat)
+/-- the bytes of an ASCII string -/
+def strBytes (s : String) : List Nat := s.toList.map (·.toNat)
 
 /-- strconv.ParseBool with its error -/
 def parseBoolE (s : String) : Option Bool :=
@@ -328,15 +333,22 @@ def setNth {β : Type} : List β → Nat → β → List β
 /-- `field.DataType != "" && field.HasDefaultValue && field.DefaultValueInterface == nil` (schema.go:287) -/
 def AField.dbDefault (f : AField) : Bool := f.typed && f.hasDefault && f.defaultIface.isNone
 
-def idxFilter (p : AField → Bool) (fs : List AField) : List Nat :=
-  ((List.range fs.length).zip fs).filterMap (fun q => if p q.2 then some q.1 else none)
+/-- indices (from `k` on) of the fields that satisfy `p`, in order -/
+def idxFilterFrom (p : AField → Bool) : Nat → List AField → List Nat
+  | _, [] => []
+  | k, f :: fs => if p f then k :: idxFilterFrom p (k + 1) fs else idxFilterFrom p (k + 1) fs
+
+def idxFilter (p : AField → Bool) (fs : List AField) : List Nat := idxFilterFrom p 0 fs
+
+/-- schema.go:253-256: `LookUpField("id")`, else `LookUpField("ID")` (column names first, Go field names second) -/
+def keyCandidate (st : Reg String) : Option Nat :=
+  match lookUpField st "id" with
+  | some i => some i
+  | none => lookUpField st "ID"
 
 /-- schema.go:253-280: the prioritized primary field.  Returns (fields, primaryFields, prioritized). -/
 def prioritize (fs : List AField) (st : Reg String) (prims : List Nat) : List AField × List Nat × Option Nat :=
-  let cand := match lookUpField st "id" with
-    | some i => some i
-    | none => lookUpField st "ID"
-  let (fs, prims, prio) := match cand with
+  let (fs, prims, prio) := match keyCandidate st with
     | some i =>
       if isPrimary fs i then (fs, prims, some i)
       else if prims.isEmpty then
@@ -373,12 +385,11 @@ def defaultsStep (fs : List AField) (prio : Option Nat) : List AField × List Na
 def finish (fs0 : List AField) : SchemaAttrs :=
   let fs1 := nameCols fs0
   let st := parseReg (fs1.map toPField)
-  let prims := primsFrom fs1 0 fs1 {} []
-  let (fs2, prims2, prio) := prioritize fs1 st prims
-  let (fs3, wd) := defaultsStep fs2 prio
-  { fields := fs3, dbNames := st.dbNames, byDB := st.dbNames.filterMap (fun c => (assoc c st.byDB).map (fun e => (c, e.1))),
+  let pr := prioritize fs1 st (primsFrom fs1 0 fs1 {} [])
+  let ds := defaultsStep pr.1 pr.2.2
+  { fields := ds.1, dbNames := st.dbNames, byDB := st.dbNames.filterMap (fun c => (assoc c st.byDB).map (fun e => (c, e.1))),
     byName := (st.byName.map (·.1)).eraseDups.filterMap (fun n => (assoc n st.byName).map (·.1)),
-    primaryFields := prims2, prioritized := prio, withDefaultDB := wd }
+    primaryFields := pr.2.1, prioritized := pr.2.2, withDefaultDB := ds.2 }
 
 /-! ## (iv) a struct declaration (first child / next sibling, as Model.Scan.EDecl) and its parse -/
 
